@@ -1031,7 +1031,47 @@ def g_parse(rng):
     return "parse " + t.hex()
 
 
+# ---------------------------------------------------------------- metamorphic relations and laws (C19)
+_C19_PAIRS = None
+
+
+def c19_corpus_pairs():
+    """shipped automata: tests/aut_timbuk_smaller with its expected verdicts, small_timbuk and moderate_artmc_timbuk pairs"""
+    global _C19_PAIRS
+    if _C19_PAIRS is None:
+        out = []
+        exp = "/repo/tests/aut_timbuk_smaller_incl.txt"
+        if os.path.exists(exp):
+            for ln in open(exp):
+                p = ln.split()
+                if len(p) == 3:
+                    out.append((f"@/repo/tests/aut_timbuk_smaller/{p[0]}", f"@/repo/tests/aut_timbuk_smaller/{p[1]}", p[2]))
+        for d, lim in [("/repo/automata/moderate_artmc_timbuk", 40000), ("/repo/automata/small_timbuk", 20000),
+                       ("/repo/automata/artmc_timbuk", 60000)]:
+            fs = [f for f in sorted(_glob.glob(d + "/*")) if os.path.isfile(f) and os.path.getsize(f) < lim
+                  and not f.endswith("_result") and b"Transitions" in open(f, "rb").read()]
+            for i in range(len(fs) - 1):
+                out.append(("@" + fs[i], "@" + fs[i + 1], "?"))
+                out.append(("@" + fs[i], "@" + fs[i], "?"))
+        _C19_PAIRS = out
+    return _C19_PAIRS
+
+
+def g_meta(rng):
+    A, B, _ = rand_pair(rng)
+    return f"meta {A.tok()} {B.tok()} {rng.randrange(1, 10**9)}"
+
+
+def g_metaf(rng):
+    ps = c19_corpus_pairs()
+    if not ps:
+        return g_meta(rng)
+    a, b, e = rng.choice(ps)
+    return f"meta {a} {b} {rng.randrange(1, 10**9)}" + (f" {e}" if e in ("0", "1") else "")
+
+
 GENERATORS = {
+    "meta": g_meta, "metaf": g_metaf,
     "parse": g_parse,
     "bddincl": g_bddincl, "bddinclall": g_bddinclall, "bddtd": g_bddtd, "bddh": g_bddh,
     "mth": g_mth, "mthrc": g_mthrc,
